@@ -372,28 +372,30 @@ class HashSeedEngine(Engine):
             length = rng.choice([4000, 8000, 12000])
             seq = "".join(rng.choice(GC_ALPHABET) for _ in range(length))
             genes = []
-            pos = rng.choice([0, 50])
+            circular = rng.random() < 0.4
+            spanning = None
+            if circular and rng.random() < 0.5:
+                # a gene spanning the origin; its two parts need not be whole codons each (a codon may straddle
+                # the origin), the other genes lie between its two parts
+                upper = rng.choice([300, 301, 599, 600])
+                lower = rng.choice([300, 600, 900]) + (-upper) % 3
+                strand = rng.choice([1, -1])
+                parts = [[length - upper, length], [0, lower]]
+                if strand == -1:
+                    parts.reverse()
+                spanning = {"name": f"r{r}x", "parts": parts, "strand": strand}
+            pos = rng.choice([0, 50]) + (spanning["parts"][1 if spanning["strand"] == 1 else 0][1] if spanning else 0)
+            limit = length - (max(e - b for b, e in spanning["parts"] if e == length) if spanning else 0)
             g = 0
             while g < 16:
                 size = rng.choice([300, 600, 900, 1500, 2400])
-                if pos + size > length:
+                if pos + size > limit:
                     break
                 genes.append({"name": f"r{r}g{g}", "parts": [[pos, pos + size]], "strand": rng.choice([1, -1])})
                 pos += size + rng.choice([0, 30, 300])
                 g += 1
-            circular = rng.random() < 0.4
-            if circular and genes and rng.random() < 0.5:
-                # a gene spanning the origin (the first gene starts at >= 0 and the last one ends before the end)
-                upper = rng.choice([300, 600])
-                lower = rng.choice([300, 600, 900])
-                last_end = max(g["parts"][0][1] for g in genes)
-                first_start = min(g["parts"][0][0] for g in genes)
-                if last_end <= length - upper and first_start >= lower:
-                    strand = rng.choice([1, -1])
-                    parts = [[length - upper, length], [0, lower]]
-                    if strand == -1:
-                        parts.reverse()
-                    genes.append({"name": f"r{r}x", "parts": parts, "strand": strand})
+            if spanning and genes:
+                genes.append(spanning)
             records.append({"id": f"REC{r}", "seq": seq, "circular": circular, "genes": genes})
             for _ in range(rng.randint(1, 4)):
                 combo = rng.choice(combos)
